@@ -15,7 +15,7 @@ import (
 
 func TestVerif_C04(t *testing.T) {
 	rep := verifkit.NewReport("C04")
-	rep.Rule = "each case: a synced node; a block of n transactions (n in 1..40 and 63..66, so every odd row count occurs) with a generated set of relevant positions (single position, pair, random subset), each relevant tx new, already delivered unconfirmed, or delivered and then flagged unsafe by a double spend, or arriving from the trusted peer while the block is being processed, sent as MsgBlock or MsgParseBlock; valid cases are judged by the harness' own merkle-path verifier against the header the node holds; corrupt cases (drop i, duplicate i, insert foreign tx at i, swap i/j, alter tx i, under the unchanged header; bodies whose independently computed root still equals the header root are skipped) must leave height and callbacks unchanged. Non-trivial = every case; distinct by (n, relevant positions class, new/seen pattern, corruption)"
+	rep.Rule = "each case: a synced node; a block of n transactions (n in 1..40 and 63..66, so every odd row count occurs) with a generated set of relevant positions (single position, pair, random subset), each relevant tx new, already delivered unconfirmed, or delivered and then flagged unsafe by a double spend, or arriving from the trusted peer while the block is being processed; one block in five is orphaned at once and part of its transactions are mined again on the new branch (the proof must be for the block the node holds then); sent as MsgBlock or MsgParseBlock; valid cases are judged by the harness' own merkle-path verifier against the header the node holds; corrupt cases (drop i, duplicate i, insert foreign tx at i, swap i/j, alter tx i, under the unchanged header; bodies whose independently computed root still equals the header root are skipped) must leave height and callbacks unchanged. Non-trivial = every case; distinct by (n, relevant positions class, new/seen pattern, corruption)"
 	rep.Assumptions = []string{"independent verifier verifkit.VerifyMerklePath / MerkleRoot (double SHA-256, odd rows duplicate the last node)", "blocks need no proof of work"}
 	defer rep.Write()
 	sizes := []int{}
@@ -106,6 +106,25 @@ func TestVerif_C04(t *testing.T) {
 					w.arrive(t, "trusted-bare", true)
 				}
 				w.midBlock = nil
+				reorged := false
+				if r.Intn(5) == 0 && len(txs) > 0 {
+					// the block is orphaned at once; the new branch confirms some of its
+					// transactions again, at other positions
+					var again []*txInfo
+					for _, t := range txs {
+						if r.Intn(3) > 0 {
+							again = append(again, t)
+						}
+					}
+					r.Shuffle(len(again), func(i, j int) { again[i], again[j] = again[j], again[i] })
+					before := w.tip
+					w.reorg(1, [][]*txInfo{again}, parse)
+					if w.tip != before {
+						reorged = true
+						shape += "/orphaned-and-mined-again"
+						rep.Event("blocks_orphaned_and_transactions_mined_again", 1)
+					}
+				}
 				if r.Intn(6) == 0 && len(rel) >= 1 {
 					// crash image of an initial sync: the per-height tx records of the block reached
 					// storage, the header file did not; a new node processes the block again
@@ -130,7 +149,7 @@ func TestVerif_C04(t *testing.T) {
 				// a seen tx must be confirmed by an update, a new one by HandleTx: exactly one each
 				evs := w.e.log.snapshot()
 				for _, ti := range txs {
-					if !ti.relevant || w.judgeFrom > 0 {
+					if !ti.relevant || w.judgeFrom > 0 || reorged {
 						continue
 					}
 					nProof := 0
